@@ -350,6 +350,17 @@ class Gen:
             self.sim[r] = s
 
     def s_alg(self, kind=None, steps=None, mode=None, a=2, b=3):
+        # randomly filled registers rarely overlap: most of the time make sure the operands are non-empty and share
+        # an element, so that intersection / difference / symmetric difference have something to decide
+        if a != b and self.r.random() < 0.7:
+            self.ensure_filled(a, p=0.6)
+            self.ensure_filled(b, p=0.6)
+            sa, sb = self.sim[a], self.sim[b]
+            if sa.e and not (set(sa.classes()) & set(sb.classes())) and not sb.full():
+                c = self.r.choice(list(sa.classes()))
+                kid = self.fid()
+                self.ops.append([110, b, kid, c])
+                sb.insert(kid, c, 0, 0)
         n = len(self.sim[a].e) + len(self.sim[b].e)
         kind = self.r.randint(0, 4) if kind is None else kind
         steps = self.r.randint(0, n + 1) if steps is None else steps
@@ -537,6 +548,9 @@ def suite(prop, rng, tier):
         rnd(MENU_ALL, N(300, 5000), (10, 60))
     elif prop == "C06":
         rnd(MENU_ALL, N(300, 4000), (10, 50))
+        # every element reference the set algebra hands out lies inside the set it promises (the receiver for
+        # difference / intersection): overlapping operands, every adaptor, stepping and internal iteration
+        cases += algebra_pairs(rng, big)[::2]
     elif prop == "C07":
         cases += exhaustive_set(3 if not big else 4)
         rnd(MENU_SET_CORE, N(250, 4000), (8, 40))
@@ -569,6 +583,13 @@ def suite(prop, rng, tier):
             N(150, 2500), (25, 60), ncls=9, caps=[8, 8, 8, 8])
     elif prop == "C13":
         rnd(MENU_MAP_CORE + scale(MENU_MAP_DISJ, 4), N(300, 5000), (8, 30))
+        # "the mutable references it returns never alias one another" holds whatever == answers (non-transitive,
+        # changing between calls): safe get_disjoint_mut under all four kinds of misbehaving ==
+        menu_d = [(5, lambda g: g.ins(m_reg(g))), (6, lambda g: g.disjoint(m_reg(g), j=g.r.randint(2, 4))),
+                  (1, lambda g: g.rem(m_reg(g))), (1, lambda g: g.lookup(m_reg(g)))]
+        for _ in range(N(150, 2000)):
+            cases.append(rand_history(rng, rng.randint(6, 24), menu_d, adv=1, seed=rng.getrandbits(48),
+                                      ncls=rng.choice([2, 3, 6])).line())
     elif prop == "C14":
         cases += eq_pairs(rng, big)
         rnd(MENU_MAP_CORE + [(5, lambda g: g.eq(m_reg(g), m_reg(g)))] + MENU_SET_CORE
